@@ -207,3 +207,22 @@ fn err_json(obs: &crate::events::Observed) -> Value {
         None => json!({"position": -1, "debug": ""}),
     }
 }
+
+/// the documents of parser cases as bytes (hex), one per line: inputs for other drivers (CLI, programs)
+pub fn cases_docs(a: &Args) {
+    let cases = read_lines(&a.req("cases"));
+    let max = a.num("max", 200) as usize;
+    let stride = (cases.len() / max.max(1)).max(1);
+    let mut o = Out::create(&a.req("out"));
+    for c in cases.iter().step_by(stride) {
+        if c["expect"]["st"] != "ok" || c["indomain"] != true {
+            continue;
+        }
+        if let Some(call) = c["calls"].as_array().and_then(|x| x.first()) {
+            let d = serialize(call["events"].as_array().unwrap(), 0);
+            o.line(&json!({"hex": hex(&d.bytes), "text": String::from_utf8_lossy(&d.bytes)}));
+        }
+    }
+    let n = o.finish();
+    println!("{}", json!({"kind": "docs", "docs": n}));
+}
